@@ -400,3 +400,57 @@ Theorem C12_effects_model_passes : forall e n ws wp qs,
        C12Effects.ef_released := (if 0 <? created then n else 0) |} = true.
 Proof. exact C12EffectsProofs.effects_model_passes. Qed.
 Print Assumptions C12_effects_model_passes.
+
+(* ---- The read deadline ---------------------------------------------------------------------------
+   Session.process arms now + timeout before every read when timeout > 0 and clears the deadline when
+   timeout = 0; timeout is config.NetTimeout() and becomes 0 with a successful PLAY.  [trun true T e
+   (tinit T ws wp) evs] runs requests and waits ([TTick d]) on a logical clock. *)
+From V Require C12Timeout C12TimeoutProofs.
+
+(* a session in the playing state has no pending deadline, hence survives any wait *)
+Theorem C12_playing_session_never_times_out : forall T e ws wp evs d,
+  let t := fst (C12Timeout.trun true T e (C12Timeout.tinit T ws wp) evs) in
+  s_closed (C12Timeout.ts_s t) = false -> C12Timeout.is_playing (C12Timeout.ts_s t) = true ->
+  C12Timeout.ts_deadline t = None /\
+  C12Timeout.tstep true T e t (C12Timeout.TTick d) =
+    ({| C12Timeout.ts_s := C12Timeout.ts_s t; C12Timeout.ts_now := C12Timeout.ts_now t + d;
+        C12Timeout.ts_deadline := None |}, C12Timeout.ObsTick false).
+Proof. exact C12TimeoutProofs.playing_session_never_times_out. Qed.
+Print Assumptions C12_playing_session_never_times_out.
+
+(* a session that is not playing (init, ready, recording) is dropped by exactly the waits that reach its
+   deadline, and every request it answers re-arms the deadline to now + T *)
+Theorem C12_idle_session_times_out : forall T e ws wp evs,
+  let t := fst (C12Timeout.trun true T e (C12Timeout.tinit T ws wp) evs) in
+  s_closed (C12Timeout.ts_s t) = false -> C12Timeout.is_playing (C12Timeout.ts_s t) = false ->
+  exists dl, C12Timeout.ts_deadline t = Some dl /\
+    forall d, snd (C12Timeout.tstep true T e t (C12Timeout.TTick d)) =
+              C12Timeout.ObsTick (dl <=? C12Timeout.ts_now t + d).
+Proof. exact C12TimeoutProofs.idle_session_times_out. Qed.
+Print Assumptions C12_idle_session_times_out.
+
+Theorem C12_request_rearms_deadline : forall T e t q,
+  let t' := fst (C12Timeout.tstep true T e t (C12Timeout.TReq q)) in
+  s_closed (C12Timeout.ts_s t') = false -> C12Timeout.is_playing (C12Timeout.ts_s t') = false ->
+  C12Timeout.ts_deadline t' = Some (C12Timeout.ts_now t + T).
+Proof. exact C12TimeoutProofs.request_rearms_deadline. Qed.
+Print Assumptions C12_request_rearms_deadline.
+
+Theorem C12_timeout_model_passes : forall os,
+  C12Timeout.ok_timeout os (C12TimeoutProofs.seen_of os) = true.
+Proof. exact C12TimeoutProofs.timeout_model_passes. Qed.
+Print Assumptions C12_timeout_model_passes.
+
+(* the variant that only ever arms the deadline drops a legally playing session *)
+Theorem C12_never_clearing_deadline_refuted :
+  let evs := map C12Timeout.TReq (firstn 3 ex_reqs) ++ [C12Timeout.TTick 2000] in
+  snd (C12Timeout.trun false 1000 ex_env (C12Timeout.tinit 1000 false []) evs) =
+    [C12Timeout.ObsResp [resp 200 (nth 0 ex_reqs (ex_req MOptions 0 [] []))];
+     C12Timeout.ObsResp [resp 200 (nth 1 ex_reqs (ex_req MOptions 0 [] []))];
+     C12Timeout.ObsResp [resp 200 (nth 2 ex_reqs (ex_req MOptions 0 [] []))]; C12Timeout.ObsTick true] /\
+  snd (C12Timeout.trun true 1000 ex_env (C12Timeout.tinit 1000 false []) evs) =
+    [C12Timeout.ObsResp [resp 200 (nth 0 ex_reqs (ex_req MOptions 0 [] []))];
+     C12Timeout.ObsResp [resp 200 (nth 1 ex_reqs (ex_req MOptions 0 [] []))];
+     C12Timeout.ObsResp [resp 200 (nth 2 ex_reqs (ex_req MOptions 0 [] []))]; C12Timeout.ObsTick false].
+Proof. exact C12TimeoutProofs.never_clearing_refuted. Qed.
+Print Assumptions C12_never_clearing_deadline_refuted.
